@@ -40,6 +40,9 @@ var c04Probes = []struct{ name, body, params string }{
 	{"truncate-astral", "{'a😀b'|truncate:1}|{'a😀b'|truncate:2}|{'a😀b'|truncate:3,false}|{'😀😀😀😀😀'|truncate:5}|{'😀😀😀😀😀'|truncate:6,false}|" +
 		"{'😀😀😀😀😀'|truncate:7,false}|{'x𝒳y𝒳z𝒳'|truncate:2}|{'x𝒳y𝒳z𝒳'|truncate:5}|{'x𝒳y𝒳z𝒳'|truncate:6,false}|{'x𝒳y𝒳z𝒳'|truncate:8,false}|" +
 		"{'abcd😀ghij'|truncate:8}|{'abcd😀ghij'|truncate:5,false}|{'abcd😀ghij'|truncate:9}", ""},
+	// quotients by zero: NaN and the infinities order, compare and test alike in both backends (their text is another matter)
+	{"non-finite", "{let $z: 0 /}{let $q: $z / $z /}{let $p: 1 / $z /}{let $m: -1 / $z /}{$q <= 1 ? 'T' : 'F'}{$q >= 1 ? 'T' : 'F'}{$q < 1 ? 'T' : 'F'}{$q > 1 ? 'T' : 'F'}{1 <= $q ? 'T' : 'F'}{$q == $q ? 'T' : 'F'}{$q != $q ? 'T' : 'F'}" +
+		"{$q ? 'truthy' : 'falsy'}{not $q ? 'T' : 'F'}|{$p > 1000000 ? 'T' : 'F'}{$m < 0 ? 'T' : 'F'}{$p == $p ? 'T' : 'F'}{$p >= $p ? 'T' : 'F'}{$m <= $p ? 'T' : 'F'}{$p ? 'truthy' : 'falsy'}{$p + $m == 0 ? 'T' : 'F'}{$p + $m <= 0 ? 'T' : 'F'}", ""},
 	{"msg-plain", "{msg desc=\"d\"}Hello <b>{$s}</b>, you have {$a} items{/msg}{msg desc=\"p\"}{plural $a}{case 0}none{case 1}one{default}{$a} many{/plural}{/msg}", "s a"},
 }
 
